@@ -33,7 +33,9 @@ type c12Op struct {
 var c12Ops = []c12Op{
 	{ID: "PJson", Method: "post", Path: "/json", Bodies: []string{"application/json"},
 		Resps: []c12Resp{{Code: "200", Media: []string{"application/json"}, Headers: []string{"X-Rate", "X-Trace-Id"}}, {Code: "201", Media: []string{"application/vnd.api+json"}},
-			{Code: "404", Ref: "NotFound", Media: []string{"application/json"}}, {Code: "default", Media: []string{"application/json"}}, {Code: "4XX", Media: []string{"application/json"}, Headers: []string{"X-Why"}}}},
+			{Code: "404", Ref: "NotFound", Media: []string{"application/json"}}, {Code: "default", Media: []string{"application/json"}}, {Code: "4XX", Media: []string{"application/json"}, Headers: []string{"X-Why"}},
+			// a wildcard that is still a JSON media type: the Content-Type comes with the response object
+			{Code: "206", Media: []string{"application/*+json"}, Headers: []string{"X-W"}}}},
 	{ID: "PForm", Method: "post", Path: "/form", Bodies: []string{"application/x-www-form-urlencoded"},
 		Resps: []c12Resp{{Code: "200", Media: []string{"text/plain"}}, {Code: "204", Headers: []string{"X-Done"}}}},
 	{ID: "PText", Method: "post", Path: "/text", Bodies: []string{"text/plain"},
@@ -44,6 +46,12 @@ var c12Ops = []c12Op{
 		Resps: []c12Resp{{Code: "200", Media: []string{"application/json"}}, {Code: "5XX", Media: []string{"application/json"}}}},
 	{ID: "PRaw", Method: "post", Path: "/raw", Bodies: []string{"application/octet-stream"},
 		Resps: []c12Resp{{Code: "200", Media: []string{"image/*"}}, {Code: "default"}}},
+	// multipart bodies: form-data goes through the framework's own reader, any other multipart/* through a
+	// reader built from the boundary parameter; both must hand the parts to the handler
+	{ID: "PMpForm", Method: "post", Path: "/mpform", Bodies: []string{"multipart/form-data"},
+		Resps: []c12Resp{{Code: "200", Media: []string{"application/json"}}, {Code: "201", Media: []string{"multipart/form-data"}}}},
+	{ID: "PMpRel", Method: "post", Path: "/mprel", Bodies: []string{"multipart/related"},
+		Resps: []c12Resp{{Code: "200", Media: []string{"application/json"}}, {Code: "201", Media: []string{"multipart/related"}}}},
 	{ID: "PGet", Method: "get", Path: "/p/{id}",
 		Resps: []c12Resp{{Code: "200", Media: []string{"application/json"}}, {Code: "304"}}},
 }
@@ -148,12 +156,12 @@ func c12Match(o c12Op, typeName string) (c12Resp, string, bool) {
 				want = "text"
 			case m == "application/x-www-form-urlencoded":
 				want = "formdata"
-			case m == "multipart/form-data":
+			case strings.HasPrefix(m, "multipart/"):
 				want = "multipart"
 			default:
 				want = c12Norm(m)
 			}
-			if c12Norm(tag) == want {
+			if c12Norm(tag) == want || c12Norm(tag) == c12Norm(strings.ReplaceAll(m, "*", "wildcard")) {
 				return r, m, true
 			}
 		}
@@ -188,6 +196,15 @@ type c12Rows struct {
 	Resp []c12RespRow
 }
 
+// c12Multipart is a two-part body (a, n) with a fixed boundary.
+func c12Multipart(a, n string) (param, body string) {
+	const b = "XbOuNdArY"
+	part := func(name, v string) string {
+		return "--" + b + "\r\nContent-Disposition: form-data; name=\"" + name + "\"\r\n\r\n" + v + "\r\n"
+	}
+	return "; boundary=" + b, part("a", a) + part("n", n) + "--" + b + "--\r\n"
+}
+
 func c12ReqClass(m string) int {
 	switch {
 	case m == "":
@@ -200,6 +217,10 @@ func c12ReqClass(m string) int {
 		return 3
 	case m == "text/plain":
 		return 4
+	case m == "multipart/form-data":
+		return 6
+	case strings.HasPrefix(m, "multipart/"):
+		return 7
 	}
 	return 5
 }
@@ -314,6 +335,10 @@ func c12Body(ctx *Ctx, rows *c12Rows) error {
 					sent = "\x00\x01raw"
 				case m == "application/x-www-form-urlencoded":
 					sent = url.Values{"a": {"x y"}, "n": {"5"}}.Encode()
+				case strings.HasPrefix(m, "multipart/"):
+					var prm string
+					prm, sent = c12Multipart("x y", "5")
+					ct = m + prm
 				default:
 					sent = `{"a":"x y","n":5}`
 				}
@@ -382,7 +407,7 @@ func c12Body(ctx *Ctx, rows *c12Rows) error {
 				wildcard := strings.Contains(media, "*")
 				wantCT := media
 				if wildcard {
-					wantCT = "image/png"
+					wantCT = "image/png" // what the handler supplies with the response object (opt.ctype)
 				}
 				req := J{"method": strings.ToUpper(o.Method), "url": "http://h" + strings.Replace(o.Path, "{id}", "42", 1)}
 				if len(o.Bodies) > 0 {
@@ -393,6 +418,11 @@ func c12Body(ctx *Ctx, rows *c12Rows) error {
 						req["body"] = "a=x&n=1"
 						if strings.HasSuffix(o.Bodies[0], "+json") {
 							req["body"] = `{"a":"x","n":1}`
+						}
+						if strings.HasPrefix(o.Bodies[0], "multipart/") {
+							prm, b := c12Multipart("x", "1")
+							req["headers"] = [][2]string{{"Content-Type", o.Bodies[0] + prm}}
+							req["body"] = b
 						}
 					}
 				}
@@ -489,6 +519,11 @@ func c12Body(ctx *Ctx, rows *c12Rows) error {
 					if o.Bodies[0] == "application/x-www-form-urlencoded" {
 						req["body"] = "a=x&n=1"
 					}
+					if strings.HasPrefix(o.Bodies[0], "multipart/") {
+						prm, b := c12Multipart("x", "1")
+						req["headers"] = [][2]string{{"Content-Type", o.Bodies[0] + prm}}
+						req["body"] = b
+					}
 				}
 				opt := J{"sel": 0, "status": 200, "ctype": "image/png", "errh": true}
 				opt[mode] = true
@@ -549,6 +584,10 @@ func c12CheckBody(media string, reply map[string]interface{}, body string) strin
 		want, _ := json.Marshal(c12JSONView(val))
 		if !jsonEqual(body, string(want)) {
 			return fmt.Sprintf("body %s is not the JSON encoding of the returned value %s", clip(body, 120), clip(string(want), 120))
+		}
+	case strings.HasPrefix(media, "multipart/"):
+		if !strings.Contains(body, `name="field"`) || !strings.Contains(body, "value") {
+			return fmt.Sprintf("the part written by the handler's function is not in the body %q", clip(body, 160))
 		}
 	case media == "text/plain":
 		if s, ok := val.(string); ok && body != s {
@@ -625,6 +664,11 @@ func c12CheckRequest(o c12Op, media, sent string, ro map[string]interface{}) str
 	case media == "application/octet-stream":
 		if got == nil {
 			return "raw body not delivered"
+		}
+	case strings.HasPrefix(media, "multipart/"):
+		gm, _ := got.(map[string]interface{})
+		if want := `[{"data":"x y","name":"a"},{"data":"5","name":"n"}]`; gm == nil || Canon(gm["$multipart"]) != want {
+			return fmt.Sprintf("%s parts a=\"x y\", n=5 arrive as %s", media, Canon(got))
 		}
 	default:
 		gm, _ := got.(map[string]interface{})
